@@ -1,10 +1,10 @@
 SPECIFICATION Spec
-CONSTANTS Acct <- AcctCU
- KindsOf <- KindsTwo
- BaseSet <- BaseTwo
+CONSTANTS Acct <- AcctC
+ KindsOf <- KindsNest
+ BaseSet <- BaseNest
  MaxSteps = 6
- MaxSnap = 2
- WithSeal = TRUE
+ MaxSnap = 3
+ WithSeal = FALSE
  FreeVals = FALSE
  Dv <- NoDev
 INVARIANTS UndoMatchesSaved NoPanic RevsOK DiscardAllIsBase RedoEqualsExec
